@@ -139,6 +139,8 @@ func run(r *lib.Run) {
 	}
 	r.Assume("file sizes are accounted rounded up to 4 KiB blocks (an entry 'fits' when its rounded size <= max_size)")
 	r.Assume("for a key with duplicate files the statement does not say which file represents the key: order/necessity are judged only where they hold for every choice")
+	r.Assume("start-up does not re-encode entries: a surviving file is identified with a generated one by key, stamped access time and byte length (a loader that converted legacy / other-mode files on start-up would need another identification)")
+	r.Assume(".DS_Store files are not among the statement's legal directory contents (nor documented): they are still planted, but a start-up error that the isolation experiment attributes to one is recorded (startup-error.not-judged.ds_store@*), not judged")
 
 	disk.VerifSetHook(hook)
 	defer disk.VerifSetHook(nil)
@@ -180,6 +182,33 @@ func run(r *lib.Run) {
 
 	if r.Counter("startup.ok") == 0 {
 		r.Inconclusive("no start-up succeeded; nothing after start-up was observed")
+	}
+	// Required observations: a run that never read a survivor of some on-disk
+	// format under some storage mode, never met duplicates / oversized files /
+	// evictions / a second restart, or never used a loaded entry again observed
+	// too little to say "held".
+	if only < 0 && r.Violations() == 0 {
+		var need []string
+		for _, mode := range []string{"zstd", "uncompressed"} {
+			if n < 16 {
+				break // fewer than one keep-everything case per storage mode
+			}
+			for _, enc := range []string{"zstd-kp", "zstd-c", "v1", "ident-hdr", "legacy-raw"} {
+				need = append(need, "reads.get.cas."+enc+"-in-"+mode+"-mode.ok", "reads.getzstd."+enc+"-in-"+mode+"-mode.ok",
+					"reads.get-offset.cas."+enc+"-in-"+mode+"-mode.ok", "reads.getzstd-offset."+enc+"-in-"+mode+"-mode.ok")
+			}
+			need = append(need, "reads.get.ac.raw-in-"+mode+"-mode.ok", "reads.get.raw.raw-in-"+mode+"-mode.ok")
+		}
+		need = append(need, "gen.dup-file.any", "startup.oversized-keys-removed", "startup.evicted-keys", "uploads.evicted.remembered-survivors",
+			"restart2.ok", "reads.full.cases", "reads.get.size-known", "reads.get.size-unknown",
+			"uploads.touch.reput-cas.ok", "uploads.touch.overwrite-ac.ok", "uploads.touch.overwrite-raw.ok", "uploads.touch.contains.ok",
+			"uploads.touched-key-evicted-later", "reads.get.touched-survivor.ok")
+		sort.Strings(need)
+		for _, k := range need {
+			if r.Counter(k) == 0 {
+				r.Inconclusive("required observation never made: " + k)
+			}
+		}
 	}
 }
 
@@ -358,14 +387,33 @@ func runCase(r *lib.Run, pool *lib.DirPool, idx, worker int) {
 	cs := &caseState{r: r, pool: pool, idx: idx, worker: worker, rng: rng, fresh: map[string]*fileRec{}}
 	cs.tag = fmt.Sprintf("c09-s%d-%s-%d", r.Seed, r.Tier, idx)
 	tm := cs.timed("generate")
-	cs.pop = genPopulation(rng, cs.tag)
+	// every eighth case keeps everything (max_size larger than the total), holds
+	// every on-disk format and has no upload phase: all formats are read in
+	// full, alternately under the two storage modes
+	keepAll := idx%8 == 0
+	cs.pop = genPopulation(rng, cs.tag, keepAll)
 	tm()
 	cs.maxClass = weighted(rng, "larger", 20, "equal", 15, "smaller", 35, "below-largest", 20, "one-block", 10)
 	cs.storage = lib.Pick(rng, []string{"zstd", "uncompressed"})
+	if keepAll {
+		cs.maxClass = "larger"
+		cs.storage = []string{"zstd", "uncompressed"}[(idx/8)%2]
+	}
 	cs.impl = lib.Pick(rng, []string{"go", "cgo"})
 	cs.freshDir = rng.IntN(100) < 30
 	planUploads := weighted(rng, "none", 20, "some", 45, "all", 35)
 	planRestart2 := rng.IntN(100) < 35
+	// A fixed quarter of the cases has no upload phase: there every survivor of
+	// the start-up is still cached when the contents are read (Get with known
+	// and unknown size, GetZstd, reads at an offset).
+	if idx%4 == 0 {
+		planUploads = "none"
+	} else if planUploads == "none" {
+		planUploads = "some"
+	}
+	if keepAll {
+		planRestart2 = false
+	}
 	rng2 := r.Rng(fmt.Sprintf("case-%d-phase2", idx)) // later phases: independent of how much the first consumed
 
 	r.Count("case.total")
@@ -412,6 +460,7 @@ func runCase(r *lib.Run, pool *lib.DirPool, idx, worker int) {
 		if f.DupIdx > 0 {
 			hasDup = true
 			r.Count("gen.dup-file." + f.Kind + "." + f.Layout + "." + f.Enc)
+			r.Count("gen.dup-file.any")
 		}
 		hasLegacy = hasLegacy || f.Layout != "v2"
 		if f.cost() > cs.max {
@@ -455,6 +504,12 @@ func runCase(r *lib.Run, pool *lib.DirPool, idx, worker int) {
 		tm = cs.timed("isolate")
 		feature, how := cs.classify(err)
 		tm()
+		if strings.HasPrefix(feature, "ds_store@") {
+			// not a directory content the statement (or the documentation) promises to tolerate
+			r.Count("startup-error.not-judged." + feature)
+			cs.logf("start-up error attributed to %s: %v", feature, err)
+			return
+		}
 		cs.violation("startup-error", feature,
 			fmt.Sprintf("disk.New failed on a legal directory: %v (isolated feature: %s)", err, feature),
 			map[string]any{"error": err.Error(), "isolated_feature": feature, "isolated_by": how})
@@ -529,7 +584,7 @@ func runCase(r *lib.Run, pool *lib.DirPool, idx, worker int) {
 
 	// ---- content reads, only now --------------------------------------------
 	tm = cs.timed("reads")
-	cs.reads(rng2, cur, st, curStorage)
+	cs.reads(rng2, cur, st, curStorage, planUploads == "none")
 	cs.monitors("final", cur, true)
 	tm()
 }
@@ -691,9 +746,14 @@ func (cs *caseState) retryInPlace(dir string) bool {
 	return err == nil
 }
 
-// uploads stores fresh blobs through the cache API until the planned share
-// of the remembered survivors has been evicted, and judges the order of the
-// lru.removed events against the remembered access times.
+// uploads first uses some of the entries the start-up loaded (re-Put of a CAS
+// survivor with the same content, overwrite of an AC / RAW survivor with new
+// bytes, index-only Contains), which makes them the youngest entries, then
+// stores fresh blobs through the cache API until the planned share of the
+// remembered survivors has been evicted, and judges the order of the
+// lru.removed events against the remembered access times: untouched survivors
+// go in atime order, and nothing used or stored after the start-up goes while
+// an untouched survivor is still cached.
 func (cs *caseState) uploads(rng *rand.Rand, ph string, c disk.Cache, st *afterStart, plan, storage string) {
 	r := cs.r
 	defer cs.timed("uploads")()
@@ -704,31 +764,136 @@ func (cs *caseState) uploads(rng *rand.Rand, ph string, c disk.Cache, st *afterS
 		return
 	}
 	r.Eval()
+	ctx := context.Background()
+	orig := st.keys // the judge below needs the access times remembered from before the start-up
+	nk := make(map[string]*keyInfo, len(orig))
+	for k, v := range orig {
+		nk[k] = v
+	}
+	st.keys = nk
 	old := map[string]bool{}
 	for _, k := range st.survKeys {
 		old[k] = true
 	}
-	target := len(st.survKeys)
+	limit := snap.MaxSize / 2
+	if limit > 3*lib.MiB {
+		limit = 3 * lib.MiB
+	}
+	var seq []string // eviction events and "touch:<key>" markers, in order
+	gone := map[string]bool{}
+	touched := map[string]bool{}
+	oldGone, freshGone := 0, 0
+	_ = cs.takeEvents()
+	collect := func() int {
+		ev := cs.takeEvents()
+		for _, k := range ev {
+			seq = append(seq, k)
+			gone[k] = true
+			switch {
+			case touched[k]:
+				freshGone++
+				delete(touched, k)
+				r.Count("uploads.touched-key-evicted-later")
+			case old[k]:
+				oldGone++
+			case cs.fresh[k] != nil:
+				freshGone++
+			}
+		}
+		return len(ev)
+	}
+
+	// ---- use of loaded entries ------------------------------------------------
+	if len(st.survKeys) >= 2 && rng.IntN(10) < 7 {
+		nTouch := 1 + len(st.survKeys)/5
+		if nTouch > 6 {
+			nTouch = 6
+		}
+		perm := rng.Perm(len(st.survKeys))
+		for _, pi := range perm[:nTouch] {
+			k := st.survKeys[pi]
+			if gone[k] || touched[k] {
+				continue
+			}
+			ki := orig[k]
+			f0 := ki.files[0]
+			kind := entryKind(f0.Kind)
+			op := "contains"
+			if rng.IntN(4) > 0 {
+				op = "reput-cas"
+				if f0.Kind != "cas" {
+					op = "overwrite-" + f0.Kind
+				}
+			}
+			if op == "contains" {
+				ok, _ := c.Contains(ctx, kind, f0.Hash, -1)
+				n := collect()
+				cs.logf("%s: Contains(%s) = %v -> evicted %d", ph, shortKey(k), ok, n)
+				if !ok {
+					// the index snapshot taken at start-up said it is cached: M-dir / the reads report real losses
+					r.Count(ph + ".touch.contains.not-found")
+					continue
+				}
+				r.Count("uploads.touch.contains.ok")
+				touched[k] = true
+				seq = append(seq, "touch:"+k)
+				continue
+			}
+			content := f0.Content
+			if f0.Kind != "cas" {
+				sz := pickSize(rng, f0.Kind)
+				if int64(sz) > limit {
+					sz = int(limit)
+				}
+				content = lib.GenBlob(rng, sz, weighted(rng, "random", 60, "text", 20, "zero", 20), fmt.Sprintf("%s-%s-ow-%s", cs.tag, ph, f0.Hash[:8]))
+			}
+			if lib.RoundUp4k(int64(len(content)))+lib.Block > snap.MaxSize {
+				continue // might not fit once stored in the mode of this run
+			}
+			err := c.Put(ctx, kind, f0.Hash, int64(len(content)), bytes.NewReader(content))
+			n := collect()
+			cs.logf("%s: %s %s %d bytes -> err=%v evicted %d", ph, op, shortKey(k), len(content), err, n)
+			if err != nil {
+				r.Count(ph + ".touch." + op + ".err")
+				continue
+			}
+			r.Count("uploads.touch." + op + ".ok")
+			// from now on the key is an entry written by this run
+			enc := "raw"
+			if f0.Kind == "cas" {
+				enc = "put-" + storage
+			}
+			nf := &fileRec{ID: 2000 + len(cs.freshSeq), Kind: f0.Kind, Hash: f0.Hash, Content: content, Writer: "upload", Layout: "v2", Enc: enc, DiskLen: int64(len(content))}
+			cs.fresh[k] = nf
+			cs.freshSeq = append(cs.freshSeq, nf)
+			st.keys[k] = &keyInfo{key: k, files: []*fileRec{nf}, fit: []*fileRec{nf}}
+			st.surv[k] = &survivor{rec: nf, size: int64(len(content))}
+			touched[k] = true
+			seq = append(seq, "touch:"+k)
+		}
+	}
+	var untouched []string
+	for _, k := range st.survKeys {
+		if !touched[k] && !gone[k] {
+			untouched = append(untouched, k)
+		}
+	}
+
+	// ---- fresh uploads -----------------------------------------------------------
+	target := len(untouched)
 	extraFresh := 0
 	if plan == "some" && target > 0 {
 		target = 1 + rng.IntN(target)
 	} else {
 		extraFresh = 2
 	}
-	limit := snap.MaxSize / 2
-	if limit > 3*lib.MiB {
-		limit = 3 * lib.MiB
-	}
+	target += oldGone
 	var sizes []int
 	for _, s := range []int{9, 700, 2000, 4096, 5000, 20000, 70000} {
 		if int64(s) <= limit {
 			sizes = append(sizes, s)
 		}
 	}
-	var seq []string // eviction events, in order
-	gone := map[string]bool{}
-	oldGone, freshGone := 0, 0
-	_ = cs.takeEvents()
 	for n := 0; n < 14; n++ {
 		if oldGone >= target && freshGone >= extraFresh {
 			break
@@ -738,8 +903,8 @@ func (cs *caseState) uploads(rng *rand.Rand, ph string, c disk.Cache, st *afterS
 		// still reports each eviction in order).
 		total, _, _, _ := c.Stats()
 		need := snap.MaxSize - total
-		for i := 0; i < target && i < len(st.survKeys); i++ {
-			if k := st.survKeys[i]; !gone[k] {
+		for i := 0; i < target-oldGone && i < len(untouched); i++ {
+			if k := untouched[i]; !gone[k] {
 				need += lib.RoundUp4k(st.surv[k].size)
 			}
 		}
@@ -760,24 +925,15 @@ func (cs *caseState) uploads(rng *rand.Rand, ph string, c disk.Cache, st *afterS
 		hookKeys.Store(f.Key(), cs)
 		cs.fresh[f.Key()] = f
 		cs.freshSeq = append(cs.freshSeq, f)
-		err := c.Put(context.Background(), cache.CAS, f.Hash, int64(sz), bytes.NewReader(b))
+		err := c.Put(ctx, cache.CAS, f.Hash, int64(sz), bytes.NewReader(b))
 		if err != nil {
 			r.Count(ph + ".put.err")
 			cs.logf("%s: put %d bytes: %v", ph, sz, err)
 		} else {
 			r.Count(ph + ".put.ok")
 		}
-		ev := cs.takeEvents()
-		cs.logf("%s: put #%d %s %d bytes (%s) -> evicted %d", ph, n, shortKey(f.Key()), sz, ck, len(ev))
-		for _, k := range ev {
-			seq = append(seq, k)
-			gone[k] = true
-			if old[k] {
-				oldGone++
-			} else if cs.fresh[k] != nil {
-				freshGone++
-			}
-		}
+		nEv := collect()
+		cs.logf("%s: put #%d %s %d bytes (%s) -> evicted %d", ph, n, shortKey(f.Key()), sz, ck, nEv)
 	}
 	r.CountN(ph+".evicted.remembered-survivors", int64(oldGone))
 	r.CountN(ph+".evicted.fresh-uploads", int64(freshGone))
@@ -790,11 +946,27 @@ func (cs *caseState) uploads(rng *rand.Rand, ph string, c disk.Cache, st *afterS
 	for k := range old {
 		remaining[k] = true
 	}
+	young := map[string]bool{} // used again after the start-up (and still cached as far as the events say)
 	var prev *keyInfo
 	reported := false
 	for i, k := range seq {
-		if old[k] {
-			ki := st.keys[k]
+		if strings.HasPrefix(k, "touch:") {
+			k = k[len("touch:"):]
+			delete(remaining, k)
+			young[k] = true
+			continue
+		}
+		switch {
+		case young[k]:
+			delete(young, k)
+			if len(remaining) > 0 && !reported {
+				reported = true
+				cs.violation(ph, "used-survivor-evicted-before-older-survivor",
+					fmt.Sprintf("eviction #%d removed %s, which was used (re-stored or looked up) after the start-up, while %d entries remembered from before the restart and not used since were still cached", i, shortKey(k), len(remaining)),
+					map[string]any{"eviction_sequence": shortAll(seq)})
+			}
+		case old[k]:
+			ki := orig[k]
 			if !remaining[k] {
 				cs.violation(ph, "survivor-evicted-twice", fmt.Sprintf("%s evicted twice", shortKey(k)), map[string]any{"eviction_sequence": seq})
 				continue
@@ -810,7 +982,7 @@ func (cs *caseState) uploads(rng *rand.Rand, ph string, c disk.Cache, st *afterS
 			// nothing older may remain
 			if !reported {
 				for rk := range remaining {
-					o := st.keys[rk]
+					o := orig[rk]
 					if o.youngest < ki.oldest {
 						reported = true
 						cs.violation(ph, "later-eviction-not-in-atime-order",
@@ -820,7 +992,7 @@ func (cs *caseState) uploads(rng *rand.Rand, ph string, c disk.Cache, st *afterS
 					}
 				}
 			}
-		} else if cs.fresh[k] != nil && len(remaining) > 0 && !reported {
+		case cs.fresh[k] != nil && len(remaining) > 0 && !reported:
 			reported = true
 			cs.violation(ph, "fresh-upload-evicted-before-older-survivor",
 				fmt.Sprintf("eviction #%d removed the fresh upload %s while %d entries remembered from before the restart were still cached", i, shortKey(k), len(remaining)),
@@ -898,9 +1070,17 @@ func (cs *caseState) currentFiles(rng *rand.Rand, c disk.Cache) ([]*fileRec, boo
 
 // reads fetches every key the harness knows through the cache API: survivors
 // must deliver the remembered content and size, everything else must miss.
-func (cs *caseState) reads(rng *rand.Rand, c disk.Cache, st *afterStart, storage string) {
+// full (cases without an upload phase): every survivor is read with the size
+// known and unknown and, for CAS, through GetZstd; otherwise one of the two Get
+// forms and GetZstd for half of the CAS survivors. CAS survivors of more than
+// one byte are also read from a random offset (Get and GetZstd): the rest of
+// the content must come back.
+func (cs *caseState) reads(rng *rand.Rand, c disk.Cache, st *afterStart, storage string, full bool) {
 	r := cs.r
 	r.Eval()
+	if full {
+		r.Count("reads.full.cases")
+	}
 	ctx := context.Background()
 	snap := lib.Snapshot(c)
 	indexed := map[string]bool{}
@@ -930,74 +1110,138 @@ func (cs *caseState) reads(rng *rand.Rand, c disk.Cache, st *afterStart, storage
 		for _, f := range ki.files {
 			accept = append(accept, f.Content)
 		}
-		sizeArg := int64(-1)
-		if len(accept) == 1 && rng.IntN(2) == 0 {
-			sizeArg = int64(len(accept[0]))
-		}
-		rc, sz, err := c.Get(ctx, kind, f0.Hash, sizeArg, 0)
-		var got []byte
-		if err == nil && rc != nil {
-			got, err = io.ReadAll(rc)
-			_ = rc.Close()
-		}
 		enc := f0.Enc
 		if s := st.surv[k]; s != nil {
 			enc = s.rec.Enc
 		}
 		path := fmt.Sprintf("reads.get.%s.%s-in-%s-mode", f0.Kind, enc, storage)
-		match := -1
-		for i, a := range accept {
-			if rc != nil && err == nil && bytes.Equal(a, got) {
-				match = i
+		sizeArgs := []int64{-1}
+		if len(accept) == 1 {
+			switch {
+			case full:
+				sizeArgs = []int64{int64(len(accept[0])), -1}
+				if rng.IntN(2) == 0 {
+					sizeArgs[0], sizeArgs[1] = sizeArgs[1], sizeArgs[0]
+				}
+			case rng.IntN(2) == 0:
+				sizeArgs = []int64{int64(len(accept[0]))}
 			}
 		}
-		switch {
-		case err != nil || rc == nil:
-			r.Count(path + ".FAILED")
-			cs.violation("reads", "survivor-unreadable", fmt.Sprintf("Get(%s, size %d) of an indexed survivor failed: rc=%v err=%v", shortKey(k), sizeArg, rc != nil, err), nil)
-			continue
-		case match < 0:
-			r.Count(path + ".WRONG")
-			cs.violation("reads", "survivor-content-changed", fmt.Sprintf("Get(%s) returned %d bytes that are not the stored content (%d bytes)", shortKey(k), len(got), len(accept[0])), nil)
-			continue
-		case sz != int64(len(got)):
-			r.Count(path + ".WRONGSIZE")
-			cs.violation("reads", "survivor-size-changed", fmt.Sprintf("Get(%s) reported size %d but delivered %d bytes", shortKey(k), sz, len(got)), nil)
+		var got []byte
+		failed := false
+		for _, sizeArg := range sizeArgs {
+			rc, sz, err := c.Get(ctx, kind, f0.Hash, sizeArg, 0)
+			got = nil
+			if err == nil && rc != nil {
+				got, err = io.ReadAll(rc)
+				_ = rc.Close()
+			}
+			match := -1
+			for i, a := range accept {
+				if rc != nil && err == nil && bytes.Equal(a, got) {
+					match = i
+				}
+			}
+			switch {
+			case err != nil || rc == nil:
+				r.Count(path + ".FAILED")
+				cs.violation("reads", "survivor-unreadable", fmt.Sprintf("Get(%s, size %d) of an indexed survivor failed: rc=%v err=%v", shortKey(k), sizeArg, rc != nil, err), nil)
+				failed = true
+			case match < 0:
+				r.Count(path + ".WRONG")
+				cs.violation("reads", "survivor-content-changed", fmt.Sprintf("Get(%s, size %d) returned %d bytes that are not the stored content (%d bytes)", shortKey(k), sizeArg, len(got), len(accept[0])), nil)
+				failed = true
+			case sz != int64(len(got)):
+				r.Count(path + ".WRONGSIZE")
+				cs.violation("reads", "survivor-size-changed", fmt.Sprintf("Get(%s, size %d) reported size %d but delivered %d bytes", shortKey(k), sizeArg, sz, len(got)), nil)
+				failed = true
+			}
+			if failed {
+				break
+			}
+			if sizeArg < 0 {
+				r.Count("reads.get.size-unknown")
+			} else {
+				r.Count("reads.get.size-known")
+			}
+		}
+		if failed {
 			continue
 		}
 		r.Count(path + ".ok")
+		if s := st.surv[k]; s != nil && s.rec.Writer == "upload" {
+			r.Count("reads.get.touched-survivor.ok")
+		}
 		if s := st.surv[k]; s != nil && !bytes.Equal(s.rec.Content, got) {
 			r.Count("reads.dup.content-of-the-other-file")
 		}
 		if ok, csz := c.Contains(ctx, kind, f0.Hash, int64(len(got))); !ok || csz != int64(len(got)) {
 			cs.violation("reads", "survivor-size-changed", fmt.Sprintf("Contains(%s, %d) = %v, %d", shortKey(k), len(got), ok, csz), nil)
 		}
-		if f0.Kind == "cas" && rng.IntN(2) == 0 {
-			zrc, zsz, err := c.GetZstd(ctx, f0.Hash, int64(len(got)), 0)
-			if err != nil || zrc == nil {
-				cs.violation("reads", "survivor-unreadable", fmt.Sprintf("GetZstd(%s) failed: %v", shortKey(k), err), nil)
+		if f0.Kind != "cas" {
+			continue
+		}
+		// reads from an offset: the rest of the content
+		off := int64(0)
+		if len(got) > 1 && (full || rng.IntN(2) == 0) {
+			off = 1 + rng.Int64N(int64(len(got))-1)
+			if rng.IntN(4) == 0 {
+				off = int64(len(got)) - 1
+			}
+			rc, _, err := c.Get(ctx, kind, f0.Hash, int64(len(got)), off)
+			var part []byte
+			if err == nil && rc != nil {
+				part, err = io.ReadAll(rc)
+				_ = rc.Close()
+			}
+			switch {
+			case err != nil || rc == nil:
+				r.Count("reads.get-offset.cas." + enc + "-in-" + storage + "-mode.FAILED")
+				cs.violation("reads", "survivor-unreadable-at-offset", fmt.Sprintf("Get(%s, size %d, offset %d) of an indexed survivor failed: rc=%v err=%v", shortKey(k), len(got), off, rc != nil, err), nil)
+				continue
+			case !bytes.Equal(part, got[off:]):
+				r.Count("reads.get-offset.cas." + enc + "-in-" + storage + "-mode.WRONG")
+				cs.violation("reads", "survivor-content-changed-at-offset", fmt.Sprintf("Get(%s, size %d, offset %d) returned %d bytes that are not the last %d bytes of the content", shortKey(k), len(got), off, len(part), int64(len(got))-off), nil)
 				continue
 			}
-			zb, err := io.ReadAll(zrc)
-			_ = zrc.Close()
-			var dec []byte
-			if err == nil {
-				dec, err = lib.ZstdDecodeBoth(zb)
+			r.Count("reads.get-offset.cas." + enc + "-in-" + storage + "-mode.ok")
+		}
+		if full || rng.IntN(2) == 0 {
+			offs := []int64{0}
+			if off > 0 {
+				offs = append(offs, off)
 			}
-			if err != nil || !bytes.Equal(dec, got) || zsz != int64(len(got)) {
-				r.Count("reads.getzstd." + enc + "-in-" + storage + "-mode.WRONG")
-				cs.violation("reads", "survivor-content-changed", fmt.Sprintf("GetZstd(%s): err=%v size=%d decoded=%d want %d", shortKey(k), err, zsz, len(dec), len(got)), nil)
-				continue
+			for _, o := range offs {
+				name := "reads.getzstd."
+				if o > 0 {
+					name = "reads.getzstd-offset."
+				}
+				zrc, zsz, err := c.GetZstd(ctx, f0.Hash, int64(len(got)), o)
+				if err != nil || zrc == nil {
+					cs.violation("reads", "survivor-unreadable", fmt.Sprintf("GetZstd(%s, offset %d) failed: %v", shortKey(k), o, err), nil)
+					break
+				}
+				zb, err := io.ReadAll(zrc)
+				_ = zrc.Close()
+				var dec []byte
+				if err == nil {
+					dec, err = lib.ZstdDecodeBoth(zb)
+				}
+				if err != nil || !bytes.Equal(dec, got[o:]) || (o == 0 && zsz != int64(len(got))) {
+					r.Count(name + enc + "-in-" + storage + "-mode.WRONG")
+					cs.violation("reads", "survivor-content-changed", fmt.Sprintf("GetZstd(%s, offset %d): err=%v size=%d decoded=%d want %d", shortKey(k), o, err, zsz, len(dec), int64(len(got))-o), nil)
+					break
+				}
+				r.Count(name + enc + "-in-" + storage + "-mode.ok")
 			}
-			r.Count("reads.getzstd." + enc + "-in-" + storage + "-mode.ok")
 		}
 	}
 	// fresh uploads that are still indexed must read back too
 	for _, f := range cs.freshSeq {
-		if !indexed[f.Key()] {
+		if !indexed[f.Key()] || cs.fresh[f.Key()] != f {
 			continue
 		}
-		rc, _, err := c.Get(ctx, cache.CAS, f.Hash, int64(len(f.Content)), 0)
+		rc, _, err := c.Get(ctx, entryKind(f.Kind), f.Hash, int64(len(f.Content)), 0)
 		if err != nil || rc == nil {
 			cs.violation("reads", "upload-unreadable", fmt.Sprintf("Get of the indexed upload %s failed: %v", shortKey(f.Key()), err), nil)
 			continue
